@@ -7,8 +7,10 @@ from ..common import MachineryError, sha
 from .. import tlc, local, scopegen, inputs
 
 
-def model(rep, tier):
-    cfgs = ['MC_Rename_q.cfg'] if tier == 'quick' else ['MC_Rename_q.cfg', 'MC_Rename_2n.cfg']
+def model(rep, tier, deep=False):
+    """deep: also the two-name model (22.4 M states, about 50 minutes) - run by the thorough tier of C03 only; its configuration checks every invariant of
+    the renamer model (NoCapture, StaysCompilable, InterfaceKept, Frozen, Preserved), so C04 / C09 / C10 do not repeat it"""
+    cfgs = ['MC_Rename_q.cfg'] if (tier == 'quick' or not deep) else ['MC_Rename_q.cfg', 'MC_Rename_2n.cfg']
     for cfg in cfgs:
         r = tlc.check_model('Rename', cfg, timeout=3 * 3600)
         rep.add_model('Rename/' + cfg, r)
@@ -23,7 +25,7 @@ def programs(tier, rng):
     total = len(p31) + len(p22) + len(p32)
     idx = list(range(len(p32)))
     rng.shuffle(idx)
-    take = 5000 if tier == 'quick' else 150000
+    take = 5000 if tier == 'quick' else 80000
     out = [('3x1-%d' % k, p) for k, p in enumerate(p31)] + [('2x2-%d' % k, p) for k, p in enumerate(p22)]
     out += [('3x2-%d' % k, p32[k]) for k in sorted(idx[:take])]
     if tier != 'quick':
@@ -31,7 +33,7 @@ def programs(tier, rng):
         total += len(p41)
         idx = list(range(len(p41)))
         rng.shuffle(idx)
-        out += [('4x1-%d' % k, p41[k]) for k in sorted(idx[:150000])]
+        out += [('4x1-%d' % k, p41[k]) for k in sorted(idx[:80000])]
     return out, total
 
 
